@@ -118,6 +118,7 @@ class IterAnalysis:
         self.extra = {}            # key -> dict(kind, desc, fn, where, ok, witness)
         self.err_kinds = set()     # corruption kinds constructed on reachable paths
         self.peek_ok_types = set()
+        self.force = allowed_errors[1] if isinstance(allowed_errors, tuple) else None
         self.eng = None
         self.exits = None
         self.wall = 0.0
@@ -234,6 +235,21 @@ class IterAnalysis:
     IOERR_FNS = ("private_read", "ensure_data_read", "peek_tag_id", "peek_valid_tag_header", "read_valid_tag_header", "read_tag_data", "read_tag", "read_tag_checked")
 
     def on_call(self, call):
+        if self.force == "known_stack":
+            nm = call.name or ""
+            if nm.split("::")[-1] == "is_ended_by" or nm == "spec_util::is_ended_by":
+                # the open-master stack as it is now (header validation may have replaced it by implied, unknown-size ancestors)
+                v = call.st.cells.get(("H", "arg", 1))
+                ts = get_at(v, (self.ix["tag_stack"],)) if v is not None else None
+                sz = ts.elem.fields[1] if isinstance(ts, Arr) and isinstance(ts.elem, Struct) and len(ts.elem.fields) > 1 else None
+                info = self.eng.adt_info(sz.path) if isinstance(sz, Enum) else None
+                unknown_possible = True
+                if info is not None:
+                    unknown_possible = any(info["variants"][i]["name"] != "Known" for i in sz.variants)
+                if not unknown_possible:
+                    self.note("CLOSE_KNOWN", call.frame.body.path, "closing predicate consulted with known-size masters only", call.span, False, call.st, call.frame)
+            if nm == "std::vec::Vec::push" and call.frame.body.path == ITER + "::read_next":
+                self.note("CLOSE_KNOWN_REACHED", call.frame.body.path, "a new master is opened", call.span, True)
         # a failed read travels to the caller as the queued item
         if call.name == "std::collections::VecDeque::push_back" and call.frame.body.path == ITER + "::read_next" and any(x[0] == "rderr" for x in call.st.tag):
             v, _ = call.arg(1)
@@ -337,6 +353,17 @@ class IterAnalysis:
             if self.allowed_errors == "limit":
                 mx = Enum("std::option::Option", {1: (Int(0, OFF, 64, False),)})
             constrain_self(eng_, st, r.cell, ix, ae, mx)
+            if force == "known_stack":
+                v = st.cells[r.cell]
+                ts = get_at(v, (ix["tag_stack"],))
+                if not (isinstance(ts, Arr) and isinstance(ts.elem, Struct) and isinstance(ts.elem.fields[1], Enum)):
+                    raise AnchorLost("tag_stack entries no longer carry an EBMLSize")
+                info = eng_.adt_info(ts.elem.fields[1].path)
+                known = [i for i, vv in enumerate(info["variants"]) if vv["name"] == "Known"]
+                el = ts.elem
+                size = Enum(el.fields[1].path, {i: el.fields[1].variants[i] for i in known})
+                v = set_at(v, (ix["tag_stack"],), Arr(ts.len, Struct(el.path, [el.fields[0], size] + list(el.fields[2:])), None, "vec"))
+                st.cells[r.cell] = v
             st.ghost["eof_seen"] = 0
         import absint as _absint
         _forms, (pv, fv, cv) = inv_forms(ix)
@@ -601,6 +628,10 @@ def _switch_scrutinee_field(body, bb):
 # rules
 # ----------------------------------------------------------------------------------------------------
 ENTRY_JOBS = [(NEXT_KEY, None), (ITER + "::try_recover", None)]
+def known_stack_job(hierarchy_bit):
+    """read_next from a state in which every open master has a known size (R-CLOSE-UNKNOWN-ONLY); hierarchy problems tolerated, so that header
+    validation does not replace the stack by implied (unknown-size) ancestors"""
+    return (ITER + "::read_next", (hierarchy_bit, "known_stack"))
 
 REVIEWED = {
     (ITER + "::try_recover", "ASSERT", "Overflow(Sub)("):
